@@ -1,5 +1,6 @@
 """C10 — envelope integrity: blocks and headers are extracted and reproduced faithfully."""
 from .common import Report
+from . import emit
 from . import accept
 from . import headers, fieldfmt
 
@@ -26,4 +27,6 @@ def run(F, tier):
     accept.u6(rep, F, "headers")
     accept.u6(rep, F, "blocks")
     accept.u7(rep, F, "headers")
+    emit.e1(rep, F, "headers")
+    emit.e1(rep, F, "assembly")
     return rep
